@@ -37,6 +37,7 @@ func TestReconnect(t *testing.T) {
 		backoffUnit(h)
 		reconnectTraces(t, h)
 		offlineBuffer(t, h)
+		offlineTimedOut(t, h)
 	})
 }
 
@@ -387,6 +388,87 @@ func offlineBuffer(t *testing.T, h *H) {
 				x, y := plan[a], plan[b]
 				if x.phase == y.phase && !x.volatile && !y.volatile && count[x.id] == 1 && count[y.id] == 1 && pos[x.id] > pos[y.id] && (x.phase == "before" || x.phase == "outage") {
 					h.Violation("C15", "events emitted offline are delivered out of order", cs, fmt.Sprintf("event %d arrived after event %d; on the wire: %v", x.id, y.id, wire))
+				}
+			}
+		}
+	}
+}
+
+// an ack-carrying emit with a timeout (text, or with 1..2 binary attachments) is made while the socket is not connected and times
+// out before it connects: it is withdrawn from the offline buffer completely; the other events emitted offline arrive exactly once,
+// in order, and the connection survives
+func offlineTimedOut(t *testing.T, h *H) {
+	for _, tr := range []string{"polling", "websocket"} {
+		for natt := 0; natt <= 2; natt++ {
+			for _, pos := range []int{0, 1, 3} {
+				var mu sync.Mutex
+				var got []int
+				var cbs []string
+				closed := ""
+				tap := newWireTap() // order is judged on the wire: handlers run on goroutines of their own (D23)
+				synctest.Test(t, func(t *testing.T) {
+					r := newRig(&sio.ServerConfig{ParserCreator: tap.creator()})
+					r.server.OnConnection(func(s sio.ServerSocket) {
+						s.OnEvent("n", func(v int) { mu.Lock(); got = append(got, v); mu.Unlock() })
+						s.OnEvent("bin", func(v int, bs []sio.Binary, ack func(int)) { mu.Lock(); got = append(got, -v); mu.Unlock(); ack(v) })
+					})
+					m := r.manager([]string{tr}, &sio.ManagerConfig{NoReconnection: true})
+					c := m.Socket("/", nil)
+					over := false
+					c.OnDisconnect(func(reason sio.Reason) {
+						mu.Lock()
+						if !over {
+							closed = string(reason)
+						}
+						mu.Unlock()
+					})
+					for i := 0; i <= 3; i++ {
+						if i == pos {
+							bs := make([]sio.Binary, natt)
+							for k := range bs {
+								bs[k] = sio.Binary{1, 2, 3, byte(k)}
+							}
+							c.Timeout(50*time.Millisecond).Emit("bin", 9, bs, func(err error, v int) {
+								mu.Lock()
+								defer mu.Unlock()
+								if err != nil {
+									cbs = append(cbs, "timeout")
+								} else {
+									cbs = append(cbs, fmt.Sprint("r", v))
+								}
+							})
+						}
+						if i < 3 {
+							c.Emit("n", i+1)
+						}
+					}
+					time.Sleep(300 * time.Millisecond) // the timeout expires while the socket is still not connected
+					c.Connect()
+					time.Sleep(3 * time.Second)
+					mu.Lock()
+					over = true
+					mu.Unlock()
+					r.shutdown(m)
+				})
+				desc := fmt.Sprintf("transport=%s: offline emits n(1) n(2) n(3) and, at position %d, Timeout(50ms).Emit(bin, %d attachments, ack) that times out before Connect", tr, pos, natt)
+				h.Eval()
+				h.NonTrivial(desc)
+				h.Dist("offline.timedOut")
+				sort.Ints(got)
+				var wire []string
+				for _, rec := range tap.records() {
+					if rec.event == "n" || rec.event == "bin" {
+						wire = append(wire, rec.event+":"+rec.first)
+					}
+				}
+				if fmt.Sprint(got) != "[1 2 3]" || fmt.Sprint(wire) != "[n:1 n:2 n:3]" {
+					h.Violation("C15", "events emitted while disconnected are not delivered exactly once, in order, after the connection", desc, fmt.Sprintf("server handlers received %v (a negative number is the timed-out event), on the wire %v, client closed=%q", got, wire, closed))
+				}
+				if closed != "" {
+					h.Violation("C15", "the connection does not survive the flush of the offline buffer", desc, "client disconnected: "+closed)
+				}
+				if fmt.Sprint(cbs) != "[timeout]" {
+					h.Violation("C15", "the timed-out offline emit's callback is not invoked exactly once with the timeout error", desc, fmt.Sprint(cbs))
 				}
 			}
 		}
